@@ -117,6 +117,8 @@ def r1(ctx):
     # brackets restart at the top level and unary minus is handled at the leaf
     # (parse_paren evaluated on 9 bracket shapes: a bracket of either style holds one full expression, anything else is a leaf)
     __import__("c03").brackets(ctx)
+    if unary_minus_by_evaluation(ctx):
+        return
     fs = ctx.anchor_hir(FUNC_SCALAR)
     sets = [x for x in walk_exprs(fs) if x["k"] == "Assign" and x["l"]["k"] == "Field" and x["l"]["name"] == "minus"]
     ok = len(sets) >= 3 and all(render(x["r"]) == "minus" for x in sets)
@@ -129,6 +131,47 @@ def r1(ctx):
     ctx.covered("unary minus: flag set on `-`, stored on field / function / value leaves", len(sets), distinct_keys=["minus-sets:%d" % len(sets)])
     if not (ok and okf):
         ctx.violation("unary-minus/parser", ctx.where(FUNC_SCALAR), "a leading `-` must set the minus flag of the parsed column, function or value")
+
+
+def unary_minus_by_evaluation(ctx):
+    """parse_func_scalar evaluated (finite interpreter; parse_function is a stand-in that returns a function node) on a column,
+    a quoted text, a number and a function name, each with and without a leading `-`: the leaf built carries the minus flag
+    exactly when the `-` was written, is of the right kind, and the cursor stands behind the leaf"""
+    import interp
+    from extra import _expr_dict
+    V = interp.V
+    fs = ctx.anchor_hir(FUNC_SCALAR)
+    ps = ctx.prog.fns[FUNC_SCALAR]["params"]
+    W, S, MINUS = (lambda t: V("Lexem::RawString", [t])), (lambda t: V("Lexem::String", [t])), V("Lexem::ArithmeticOperator", ["-"])
+    leaves = {"size": (W("size"), "field"), "'txt'": (S("txt"), "val"), "5": (W("5"), "val"), "length": (W("length"), "function")}
+    bad, n = [], 0
+    for label, (lx, kind) in leaves.items():
+        for minus in (False, True):
+            lex = ([MINUS] if minus else []) + [lx, V("Lexem::Comma")]
+            selfv = interp.LazySelf({"lexems": list(lex), "index": 0, "roots_parsed": True, "where_parsed": True})
+
+            def call(node, recv, args, it, env):
+                if node.get("m") == "parse_function" or str(node.get("callee", "")).endswith("Parser::parse_function"):
+                    fn_ = [a_ for a_ in args if isinstance(a_, V) and a_.name.startswith("Function::")]
+                    return (V("Result::Ok", [_expr_dict(interp, function=interp.some(fn_[0] if fn_ else interp.Opaque("function")))]),)
+                return None
+            try:
+                got = interp.Interp(call=call, prog=ctx.prog, max_steps=40000).run(fs, {ps[0]["id"]: selfv})
+            except interp.Undecided as e:
+                ctx.covered("evaluation of parse_func_scalar gave up (%s%s: %s); the structural rule applies" % ("- " if minus else "", label, str(e)[:160]), 0)
+                return False
+            n += 1
+            e_ = got.args[0] if isinstance(got, V) and got.name == "Result::Ok" else None
+            e_ = e_.args[0] if isinstance(e_, V) and e_.name == "Option::Some" else e_
+            ok = isinstance(e_, dict) and e_.get("minus") is minus and e_.get(kind) not in (None, interp.NONE) and selfv["index"] == len(lex) - 1
+            ctx.obligation(ok)
+            if not ok:
+                bad.append("`%s%s` gives %s (minus flag %s, cursor %s)" % ("- " if minus else "", label, "a %s leaf" % kind if isinstance(e_, dict) and e_.get(kind) not in (None, interp.NONE) else repr(got)[:80],
+                                                                          e_.get("minus") if isinstance(e_, dict) else "?", selfv["index"]))
+    ctx.covered("parse_func_scalar evaluated on 4 leaf kinds x with / without a leading `-`", n, distinct_keys=sorted(leaves), exhaustive=True)
+    if bad:
+        ctx.violation("unary-minus/parser", ctx.where(FUNC_SCALAR), "a leading `-` must set the minus flag of the parsed column, function or value (and only then): %s" % "; ".join(bad[:3]))
+    return True
 
 
 def r2(ctx):
